@@ -191,4 +191,22 @@ theorem ingest_keeps_balance (tailZeroWidth : Bool) (line : List Char)
 example : crStep true "\x1b[33mwarning\r\x1b[0m".toList = "\x1b[33mwarning\x1b[0m".toList ∧
     selfContained (crStep true "\x1b[33mwarning\r\x1b[0m".toList) := by decide
 
+/-- **Relativized diff-stat lines** (`--relative-paths`): `relativize_path_in_diff_stat_line` copies
+git's `| N +++---` part verbatim (generated from the source: the suffix is bound once and used as
+is), so the rewritten line — space, path (plain or hyperlinked), padding, suffix — ends in exactly
+the state git's own graph ends in; a balanced coloured graph stays balanced. -/
+theorem diff_stat_line_self_contained (path : Piece) (pad : Nat) (suffix : List Char)
+    (hp : Piece.ok path) :
+    Generated.StyleTables.statSuffixVerbatim = true ∧
+    (selfContained (statLine path pad suffix) ↔ selfContained suffix) := by
+  refine ⟨StatProofs.suffix_verbatim, ?_⟩
+  have hn : Neutral path.chars := by
+    cases path with
+    | plain t => exact neutral_text t hp
+    | linked u t => exact neutral_link u t hp.1 hp.2.1 hp.2.2
+  unfold selfContained
+  rw [StatProofs.statLine_final path pad suffix hn]
+
+example : selfContained (statLine (.plain "a.rs".toList) 3 "| 12 \x1b[32m+++\x1b[m\x1b[31m--\x1b[m".toList) := by decide
+
 end C09
